@@ -56,7 +56,7 @@ GOOD = [
     [b'\r\n', b'--BND', b'\r\n', b'content-disposition', b':', b'form-data', b';', b'name', b'=', b'a', b'\r\n', b'X-Other', b':', b' v', b'\r\n', b'\r\n',
      b'', b'\r\n', b'--BND', b'--'],
 ]
-REPL = [b'', b'\r', b'\n', b'\r\n', b'--BND', b'--', b':', b';', b'=', b'"', b'\xff', b'X', b'--BND--', b'\r\n\r\n', b' ']
+REPL = [b'\x00', b' a\x00b', b'\t', b'\xc3\xa9', b'', b'\r', b'\n', b'\r\n', b'--BND', b'--', b':', b';', b'=', b'"', b'\xff', b'X', b'--BND--', b'\r\n\r\n', b' ']
 CTYPES = ['multipart/form-data', 'multipart/form-data; boundary=', 'multipart/form-data; boundary=""', 'multipart/form-data; boundary="BND"',
           'Multipart/Form-Data; boundary=BND', 'multipart/form-data; boundary=B\rD', 'multipart/form-data; boundary=BND; charset=utf-8',
           'multipart/form-data;boundary=BND', 'multipart/mixed; boundary=BND', 'multipart/form-data; Boundary=BND', 'multipart/',
